@@ -15,7 +15,7 @@ RULE = ("programs (<=45 steps) over two files holding objects of every interface
         "from: a live id of the right kind, a live id of another kind/interface/file, an id already released (double "
         "release, use after release), or a never-issued integer (-1, 0, small, high "
         "bit patterns); access elements are opened on plain, linked-block, compressed and external elements, several "
-        "at once on one element; two-identifier calls (Vinsert) are given a vgroup/vdata id of another open file. Oracle: liveness model keyed by variable: a use with a non-live or wrong-kind id must return "
+        "at once on one element; an optional warm-up of 1..140 open/close cycles moves the identifier counters first; two-identifier calls (Vinsert) are given a vgroup/vdata id of another open file. Oracle: liveness model keyed by variable: a use with a non-live or wrong-kind id must return "
         "the function's failure value (functions on the must-reject list), never crash; a use with a live id must "
         "act on its own object (file A and B hold different data); after all handles are released a full reader of "
         "file A must return the reference transcript (no retained state). Non-trivial = a stale or foreign id use "
@@ -164,7 +164,13 @@ def strategy_(draw, tier):
                           draw(st.sampled_from(KINDS)), draw(st.integers(0, 20)),
                           draw(st.sampled_from(["stale", "stale", "stale", "foreign", "foreign", "literal"])),
                           draw(st.integers(0, 60))])
-    return {"steps": steps}
+    # identifiers are issued from per-kind counters and kept in hash tables (64 buckets for files): a warm-up of
+    # opens and closes moves the counters to arbitrary residues before the history starts
+    warm = 0
+    if draw(st.integers(0, 2)) == 0:
+        # counters at the edges of the hash tables (64 buckets for file ids) as well as arbitrary ones
+        warm = draw(st.sampled_from([62, 63, 64, 126, 127, 128, 255])) if draw(st.booleans()) else draw(st.integers(1, 140))
+    return {"steps": steps, "warmup": warm}
 
 
 def strategy(tier):
@@ -201,6 +207,12 @@ def run_case(case):
         ref = run(wl.combo_reader(""), cwd=d)
         img_a = None
         p = Prog()
+        if case.get("warmup"):
+            p.raw("!repeat %d" % case["warmup"])
+            p.call("i", "Hopen", FILES[1], 1, 0, bind="wf")
+            p.call("i", "Hclose", V("wf"))
+            p.raw("!end")
+            labels.add("id_counter_warmup")
         checks = []
         objs = []        # dict(kind, var, live, file, parent index, mode)
         nvar = 0
@@ -211,6 +223,7 @@ def run_case(case):
         def children_live(i):
             return [j for j, o in enumerate(objs) if o["live"] and o.get("parent") == i]
 
+        nshared = [0]
         no_excl = bool(case.get("no_exclude"))
         excluded = {}
         an_torn = set()      # files whose annotation state was torn down by ANend of a sibling session
@@ -342,6 +355,18 @@ def run_case(case):
                     l2 = p.call("i", "hx_probe_write_access", V(o["var"]), 1000, 1)
                     checks.append((l2, "ret0", "write access through a handle opened read-write"))
                     labels.add("nested_modes")
+                    others = [q for q in objs if q is not o and q["live"] and q["kind"] == "fid" and
+                              q["file"] == o["file"]]
+                    if others:
+                        # all opens of one path share one view: an element stored through this handle is
+                        # visible through every other open handle of the file at once
+                        nshared[0] += 1
+                        l3 = p.call("i", "Hputelement", V(o["var"]), 2500, nshared[0], b"shared view", 11)
+                        checks.append((l3, "retn", (11, "Hputelement through a read-write handle")))
+                        q = others[st_[2] % len(others)]
+                        l4 = p.call("i", "Hgetelement", V(q["var"]), 2500, nshared[0], Out(15))
+                        checks.append((l4, "shared", None))
+                        labels.add("shared_view_checked")
             else:
                 _, kind, ui, how, pick = st_
                 uses = [u for u in USES[kind] if u[4]]
@@ -442,6 +467,13 @@ def run_case(case):
                 elif ck == "mustfail":
                     if r.ret != -1:
                         fail = dict(kind="%s did not fail" % pay, call=call, ret=r.ret)
+                elif ck == "retn":
+                    if r.ret != pay[0]:
+                        fail = dict(kind="%s failed" % pay[1], call=call, ret=r.ret)
+                elif ck == "shared":
+                    if r.ret != 11 or r.bufs[0][:11] != b"shared view":
+                        fail = dict(kind="an element stored through one open of a path is not visible through another "
+                                         "open of the same path", call=call, ret=r.ret)
                 elif ck == "same_as":
                     r0 = rr.res.get(pay)
                     if r0 is None or r.ret != r0.ret:
